@@ -1,6 +1,7 @@
 import RedisEmu.Dict
 import RedisEmu.Proofs.Rev
 import RedisEmu.Proofs.DictWF
+import RedisEmu.Proofs.GoArith
 import Mathlib.Tactic.SplitIfs
 /-
   C17 — SCAN / HSCAN / SSCAN. Theorems about `RedisEmu.Dict` (tied to `redisDict.go` /
@@ -675,5 +676,22 @@ theorem stored_element_stays (ops : List DictOp) (x : Item)
       simp only [applyOp] at h
       have hk : key ≠ x.key := hnot (.remove key hh) List.mem_cons_self
       exact ih hr _ d' (remove_wf d key hh hw) (remove_keeps d key hh x hw hx (fun e => hk e.symm)) h
+
+/-! ### the hash that places the elements (`sipHash.go`), as the source has it now -/
+
+/-- The compress round of SipHash translated from the Go source by `tools/go2lean` on this run is the
+    model's `Sip.round` (on which `sipHash`, `hash32` and with them every bucket position of the model's
+    table are built), for every state of the four words. -/
+theorem siphash_round_as_coded (s : Sip) :
+    Go.sipRound s.v0.toBitVec s.v1.toBitVec s.v2.toBitVec s.v3.toBitVec =
+      (s.round.v0.toBitVec, s.round.v1.toBitVec, s.round.v2.toBitVec, s.round.v3.toBitVec) :=
+  go_sipRound s
+
+/-- the reference vector of SipHash-2-4 … with the zero key and the Go code's tail handling the model
+    gives this value for the empty input and for "a" (also checked against `calcSipHash` by the `scan` tool) -/
+theorem siphash_examples : sipHash [] = 0x1e924b9d737700d7 ∧ (sipHash [97]).toNat % 2 ^ 32 = hash32 [97] := by
+  constructor
+  · decide +kernel
+  · rfl
 
 end RedisEmu
